@@ -440,6 +440,7 @@ func (h *H) checkTrexc(id string, idx, n int, cls string) {
 			cs.band("Dtrexc", tag, "trexc-similarity-residual", ref.MaxDiff(l, r), fn*eps*scale, nil)
 		} else {
 			cs.band("Dtrexc", tag, "schur-norm-preserved", math.Abs(scaled(t1, s).NormFro()-scale), fn*eps*scale, nil)
+			cs.similarityInvariants("Dtrexc", tag, t, t1)
 		}
 		if cls != scSeparated {
 			continue
@@ -544,6 +545,7 @@ func (h *H) checkTrexc(id string, idx, n int, cls string) {
 			cs.band("Dlaexc", tag, "trexc-similarity-residual", ref.MaxDiff(l, r), fn*eps*scale, nil)
 		} else {
 			cs.band("Dlaexc", tag, "schur-norm-preserved", math.Abs(scaled(t1, s).NormFro()-scale), fn*eps*scale, nil)
+			cs.similarityInvariants("Dlaexc", tag, t, t1)
 		}
 		if cls == scSeparated {
 			b1 := blocksOf(t1)
